@@ -26,6 +26,10 @@ def streams(rng, tier):
     ss.append(G + W.ready(b"DEALER") + W.msg([b"x", b""]))            # the stream ends with an empty last frame
     ss.append(G + W.ready(b"DEALER") + W.msg([b""]))
     ss.append(G + W.ready(b"REP") + W.msg([b"", b"q"]) + W.msg([b"k" * 300, b""]))
+    # frames of 64 KiB and more (beyond every internal buffer size), followed by more frames in the same stream
+    ss.append(G + W.ready(b"PUSH") + W.msg([b"k" * 70000, b"s"]) + W.msg([b"t"]))
+    ss.append(G + W.ready(b"DEALER") + W.msg([b"a" * 65536]) + W.msg([b"b" * 300, b""]) + W.ready(b"DEALER") + W.msg([b"c"]))
+    ss.append(G + W.ready(b"PUB") + W.msg([b"x" * 65535]) + W.msg([b"y"]) + W.msg([b"z" * 131072, b"w" * 65537]) + W.msg([b"v"]))
     n = 6 if tier == "quick" else 40
     for _ in range(n):
         s = G + W.ready(rng.choice([b"DEALER", b"ROUTER", b"REP"]), rng.choice([None, b"i", b"id" * 20]))
@@ -59,6 +63,23 @@ def cases(tier, rng):
             k += 1
         add([])
         add([], eof=True)
+        if len(s) > 20000:
+            # large streams: reads ending just before / at / just after every frame boundary, pairs of those, fixed-size reads
+            from . import scen
+            pos, bounds = 64, []
+            for fl, body in scen.parse_frames_prefix(s[64:]):
+                pos += (9 if fl & 2 else 2) + len(body)
+                bounds.append(pos)
+            near = sorted(set(b + d for b in bounds for d in (-9, -1, 0, 1, 2, 3, 9, 10) if 0 < b + d < len(s)))
+            for c in near:
+                add([c])
+            for _ in range(20 if tier == "quick" else 200):
+                add(sorted(rng.sample(near, 2)))
+            for size in (8192, 65536, 16384, 100000):
+                add(list(range(size, len(s), size)))
+            for _ in range(10 if tier == "quick" else 100):
+                add(rng.sample(range(1, len(s)), rng.randint(1, 6)), eof=rng.random() < 0.2)
+            continue
         step = 1 if len(s) <= 400 else max(1, len(s) // 300)
         for c in range(1, len(s), step):
             add([c])
